@@ -222,7 +222,7 @@ func runC15(s *kernel.Sim) {
 	threshold := tp.Range(2, 5)
 	n := tp.Range(5, 120)
 	nIDs := threshold + tp.Range(0, 4)
-	methods := []string{"GET", "POST"}
+	methods := []string{"GET", "POST", "GET", "get"} // a method is attributed as it was logged; another spelling is another endpoint
 	statuses := []int{200, 200, 404, 500, 200, 499, 520, 599} // among them codes that have no registered name
 	consumers := []string{"", "c1", "c2"}
 	interceptors := []string{"lunar-py-interceptor/1.0.0", "lunar-java-interceptor/2.1", "", "garbage"}
@@ -255,7 +255,7 @@ func runC15(s *kernel.Sim) {
 		}
 		r := common.AccessLog{
 			Timestamp: int64(1_700_000_000+tp.Choose(100000)) * 1000, Duration: dur, TotalDuration: tot,
-			StatusCode: statuses[tp.Choose(len(statuses))], Method: methods[tp.Choose(2)], Host: "api.com", URL: url,
+			StatusCode: statuses[tp.Choose(len(statuses))], Method: methods[tp.Choose(len(methods))], Host: "api.com", URL: url,
 			Interceptor: interceptors[tp.Choose(len(interceptors))], ConsumerTag: consumers[tp.Choose(3)],
 			Internal: tp.Chance(1, 10), RequestID: fmt.Sprintf("r%d", i),
 		}
